@@ -352,6 +352,17 @@ class BuiltinMixin:
         st.write("$elems", vr(recv.t), self.sorted_seq(st, seq, None, elem_type(recv.ty)))
         return R(st, V(NONE, "none"))
 
+    def m_str_rsplit(self, st, recv, a, kw, lineno):
+        """s.rsplit(sep, n): a fresh list of at least one string (content uninterpreted: ghost of the arguments)"""
+        f = z3.Function("str_rsplit", z3.StringSort(), Val, SeqV)
+        seq = f(vs(recv.t), a[0].t if a else NONE)
+        st.assume(z3.Length(seq) >= 1)
+        if len(a) > 1 and base_type(a[1].ty) == "int":
+            st.assume(z3.Length(seq) <= vi(a[1].t) + 1)
+        j = fresh_int("j")
+        st.assume(qforall([j], z3.Implies(z3.And(0 <= j, j < z3.Length(seq)), Val.is_StrV(seq[j])), patterns=[seq[j]]))
+        return R(st, self.new_list(st, seq, "list[str]"))
+
     def m_set_add(self, st, recv, a, kw, lineno):
         # the iteration order of a set is unspecified (hash order): after an insertion the enumeration sequence is an
         # arbitrary arrangement of the members, not the insertion order
